@@ -18,7 +18,7 @@ const colPkg = "core/collection"
 
 func c16(c *Ctx) {
 	c.R.RuleText = "two-generation discipline of SafeMap on all paths, LRU coherence rules, Cache API path rules and lock guards, decision table and algebraic normal forms of the rolling window (span, offset advance, time re-alignment, reduce range)"
-	c.R.Explain = "Structural necessary conditions of C16: SafeMap.Set writes one generation only after the key was removed from the other (so a key lives in at most one), Get/Range/Size consult both, Del removes from the generation that holds the key, each migration copies every entry before the source is replaced, all under the lock; keyLru.add moves an existing key to the front or pushes a new one and evicts the back whenever the list outgrew the limit, removeElement unlinks, forgets and calls onEvict; Cache.Del removes data, LRU entry and timer; SetWithExpire stores, refreshes the LRU position unconditionally and sets or moves the timer by prior presence; Take fetches only inside the single-flight closure after a second miss and caches only a successful fetch; RollingWindow: span = Since(lastTime)/interval if within [0,size) else size; updateOffset resets the span buckets following the offset, advances the offset by span modulo size and re-aligns lastTime to the last interval boundary not after now; Reduce visits size−span buckets (size−1 when ignoring the current one) starting after the expired ones. NOT decided: equivalence to reference models over operation sequences; Queue/Ring index arithmetic; expiry timing."
+	c.R.Explain = "Structural necessary conditions of C16: SafeMap.Set writes one generation only after the key was removed from the other (so a key lives in at most one), Get/Range/Size consult both, Del removes from the generation that holds the key, each migration copies every entry before the source is replaced, all under the lock; keyLru.add moves an existing key to the front or pushes a new one and evicts the back whenever the list outgrew the limit, removeElement unlinks, forgets and calls onEvict; Cache.Del removes data, LRU entry and timer; SetWithExpire stores, refreshes the LRU position unconditionally and sets or moves the timer by prior presence; Take fetches only inside the single-flight closure after a second miss and caches only a successful fetch; RollingWindow: span = Since(lastTime)/interval if within [0,size) else size; updateOffset resets the span buckets following the offset, advances the offset by span modulo size and re-aligns lastTime to the last interval boundary not after now; Reduce visits size−span buckets (size−1 when ignoring the current one) starting after the expired ones. Ring.Add stores at index % len, advances by one and rebases by exactly len once index ≥ 2·len; Ring.Take reads (start+i) % len for i < size with (start, size) = (index % len, len) when wrapped and (0, index) otherwise. NOT decided: equivalence to reference models over operation sequences; expiry timing."
 	c.R.Assume = append(c.R.Assume, "container/list semantics", "map semantics")
 	c16safemap(c)
 	c16lru(c)
@@ -27,6 +27,7 @@ func c16(c *Ctx) {
 	c16queue(c)
 	c16queueEmpty(c)
 	c16set(c)
+	c16ring(c)
 }
 
 // countPred evaluates a boolean sym that only compares the load of field `field` with integer constants,
